@@ -28,6 +28,24 @@
 (* The trace specification runs with "repaired": LogLose never explains a  *)
 (* recorded behaviour.                                                     *)
 (*                                                                         *)
+(* Several loggers may live in one <home> (also on the same file): exactly *)
+(* one is "active" -- its state is in the per-logger variables -- and the  *)
+(* others are parked; Switch(i) exchanges them.  Every logger appends, so  *)
+(* lines of several writers of one file (other loggers, ExternalAppend)    *)
+(* never overwrite each other.                                             *)
+(*                                                                         *)
+(* Environment faults are actions too: a file is removed, cut short or     *)
+(* appended to by somebody else, the whole logs directory is removed (or   *)
+(* moved away), a regular file is put where the directory was.  What the   *)
+(* logger does then is the deliberate behaviour of the code as it stands:  *)
+(* an open output handle keeps pointing at the file it was opened on, so a *)
+(* logger whose file (or directory) was taken away is "detached" (att =    *)
+(* FALSE) and its lines vanish with the file -- until the next rotation    *)
+(* (date or rotation flag changed, or no handle), which creates the logs   *)
+(* directory again if it is missing and opens the file of the day; while a *)
+(* regular file stands where the directory should be, the open fails (the  *)
+(* logger is down: cur = Closed) and every later cycle tries again.        *)
+(*                                                                         *)
 (* The three banner lines written when a file is opened are either part of *)
 (* the opening step (sequential use) or three separate BannerLine steps    *)
 (* (other goroutines may log in between).                                  *)
@@ -37,6 +55,11 @@ EXTENDS Bytes, TLC
 CONSTANT Design
 
 VARIABLES now,       \* virtual clock [d, ms]
+          logsSt,    \* what stands at <home>/logs: "dir" | "none" | "file" (a regular file: the directory cannot be made)
+          self,      \* index of the active logger
+          parked,    \* index |-> the per-logger variables of the other loggers (and the day they were parked on)
+          \* ---- per-logger variables (of the active logger) ----
+          att,       \* the output handle leads to a file that is (still) in the directory
           conf,      \* [level, iv, keep, rot, id, oname]
           files,     \* relative path (bytes) |-> content (bytes), regular files under logs/
           dirs,      \* set of relative paths of directories under logs/
@@ -54,13 +77,15 @@ VARIABLES now,       \* virtual clock [d, ms]
           acc,       \* number of lines accepted so far (at/above level, not suppressed)
           wrote,     \* name |-> sequence numbers of the accepted lines appended to it
           gone,      \* sequence numbers of lines in files removed by retention
-          fresh,     \* a full cycle has run since the date / rotation flag last changed
+          fresh,     \* (per logger) a full cycle has run since the date / rotation flag last changed
+          vanished,  \* sequence numbers of lines that went with a file / directory somebody else took away
+          faulted,   \* the environment (or another logger's retention) has taken a file away from under a logger
           supp,      \* the last suppression: [t, last, iv] or NoSupp
           deleted,   \* everything retention ever removed: [n, keep, must, may, on]
           rd         \* the last Read: [nil, inside, len, before, text, content] or NoRead
 
-vars == <<now, conf, files, dirs, links, cur, lastDay, lastRot, retainAt, recent, phase, bleft,
-          acc, wrote, gone, fresh, supp, deleted, rd>>
+vars == <<now, logsSt, self, parked, att, conf, files, dirs, links, cur, lastDay, lastRot, retainAt, recent, phase, bleft,
+          acc, wrote, gone, fresh, vanished, faulted, supp, deleted, rd>>
 
 Closed  == <<0>>                       \* not a legal file name
 EmptyFn == [x \in {} |-> 0]
@@ -205,54 +230,126 @@ IsBanner(b, oname, t) == /\ Len(b) > 42
                          /\ IsBlankLine(SubSeq(b, Len(b) - 20, Len(b)))
                          /\ IsMidLine(SubSeq(b, 22, Len(b) - 21), oname, t)
 
-Append1(fs, n, b) == IF n \in DOMAIN fs THEN [fs EXCEPT ![n] = @ \o b] ELSE fs @@ (n :> b)
-WroteOf(n) == IF n \in DOMAIN wrote THEN wrote[n] ELSE <<>>
 
 (* --------------------------------- Init --------------------------------- *)
-Init == /\ now = [d |-> 0, ms |-> 0]
-        /\ conf = [level |-> 2, iv |-> 10, keep |-> 7, rot |-> TRUE, id |-> <<>>, oname |-> <<>>]
+Conf0 == [level |-> 2, iv |-> 10, keep |-> 7, rot |-> TRUE, id |-> <<>>, oname |-> <<>>]
+T00   == [d |-> 0, ms |-> 0]
+Init == /\ now = T00 /\ logsSt = "none" /\ self = 1 /\ parked = EmptyFn /\ att = TRUE
+        /\ conf = Conf0
         /\ files = EmptyFn /\ dirs = {} /\ links = EmptyFn /\ cur = Closed /\ lastDay = 0 /\ lastRot = TRUE
-        /\ retainAt = [d |-> 0, ms |-> 0] /\ recent = EmptyFn /\ phase = "new" /\ bleft = 0
-        /\ acc = 0 /\ wrote = EmptyFn /\ gone = {} /\ fresh = FALSE /\ supp = NoSupp
+        /\ retainAt = T00 /\ recent = EmptyFn /\ phase = "new" /\ bleft = 0
+        /\ acc = 0 /\ wrote = EmptyFn /\ gone = {} /\ fresh = FALSE /\ vanished = {} /\ faulted = FALSE /\ supp = NoSupp
         /\ deleted = {} /\ rd = NoRead
+
+\* groups of variables for UNCHANGED
+lgv   == <<att, conf, cur, lastDay, lastRot, retainAt, recent, phase, bleft, fresh>>   \* the active logger
+histv == <<acc, wrote, gone, vanished, faulted, supp, deleted, rd>>
+
+Without(f, D) == [n \in DOMAIN f \ D |-> f[n]]
+SeqRange(s) == {s[i] : i \in 1..Len(s)}
+WroteOf(n) == IF n \in DOMAIN wrote THEN wrote[n] ELSE <<>>
+GoneOf(D) == UNION {SeqRange(WroteOf(n)) : n \in D}
+Append1(fs, n, b) == IF n \in DOMAIN fs THEN [fs EXCEPT ![n] = @ \o b] ELSE fs @@ (n :> b)
+
+(* ------------------------- several loggers in one home ------------------- *)
+Me == [att |-> att, conf |-> conf, cur |-> cur, lastDay |-> lastDay, lastRot |-> lastRot, retainAt |-> retainAt,
+       recent |-> recent, phase |-> phase, bleft |-> bleft, fresh |-> fresh, day |-> now.d]
+Blank == [att |-> TRUE, conf |-> Conf0, cur |-> Closed, lastDay |-> 0, lastRot |-> TRUE, retainAt |-> T00,
+          recent |-> EmptyFn, phase |-> "new", bleft |-> 0, fresh |-> FALSE, day |-> 0]
+\* the loggers (active and parked) whose output file is one of D lose it: their handle stays on the removed file
+ParkedDetached(D) == [i \in DOMAIN parked |-> IF parked[i].cur \in D THEN [parked[i] EXCEPT !.att = FALSE] ELSE parked[i]]
+HeldBy(D) == cur \in D \/ \E i \in DOMAIN parked : parked[i].cur \in D /\ parked[i].phase # "new"
+
+\* logger i becomes the active one (never inside a cycle); a parked logger has not seen the days that passed
+Switch(i) ==
+  /\ i # self /\ phase # "gate"
+  /\ LET p == IF i \in DOMAIN parked THEN parked[i] ELSE Blank IN
+       /\ att' = p.att /\ conf' = p.conf /\ cur' = p.cur /\ lastDay' = p.lastDay /\ lastRot' = p.lastRot
+       /\ retainAt' = p.retainAt /\ recent' = p.recent /\ phase' = p.phase /\ bleft' = p.bleft
+       /\ fresh' = (p.fresh /\ p.day = now.d)
+  /\ parked' = Put(Without(parked, {i}), self, Me)
+  /\ self' = i
+  /\ UNCHANGED <<now, logsSt, files, dirs, links, histv>>
 
 (* ------------------------------ environment ----------------------------- *)
 \* the clock moves forward to t (never inside a cycle)
 Advance(t) == /\ phase # "gate" /\ TLe(now, t)
               /\ now' = t
               /\ fresh' = (fresh /\ t.d = now.d)
-              /\ UNCHANGED <<conf, files, dirs, links, cur, lastDay, lastRot, retainAt, recent, phase, bleft,
-                             acc, wrote, gone, supp, deleted, rd>>
+              /\ UNCHANGED <<logsSt, self, parked, att, conf, files, dirs, links, cur, lastDay, lastRot, retainAt, recent, phase, bleft, histv>>
 
-\* somebody else creates a file / a directory / a symbolic link under logs/
+\* somebody else creates a file / a directory / a symbolic link under logs/ (and logs/ itself if it is missing)
 ExternalFile(n, data) == /\ phase # "gate" /\ n \notin DOMAIN files /\ n \notin dirs /\ n \notin DOMAIN links /\ n # Closed
+                         /\ logsSt # "file" /\ logsSt' = "dir"
                          /\ files' = files @@ (n :> data)
-                         /\ UNCHANGED <<now, conf, dirs, links, cur, lastDay, lastRot, retainAt, recent, phase, bleft,
-                                        acc, wrote, gone, fresh, supp, deleted, rd>>
+                         /\ UNCHANGED <<now, self, parked, dirs, links, lgv, histv>>
 ExternalDir(n) == /\ phase # "gate" /\ n \notin DOMAIN files /\ n \notin DOMAIN links
+                  /\ logsSt # "file" /\ logsSt' = "dir"
                   /\ dirs' = dirs \cup {n}
-                  /\ UNCHANGED <<now, conf, files, links, cur, lastDay, lastRot, retainAt, recent, phase, bleft,
-                                 acc, wrote, gone, fresh, supp, deleted, rd>>
+                  /\ UNCHANGED <<now, self, parked, files, links, lgv, histv>>
 \* lk = [to, file, data]: the link leads to `to`; if that is a regular file, `data` are its bytes.
 \* What a link leads to never changes afterwards (the targets are not log files).
 ExternalLink(n, lk) == /\ phase # "gate" /\ n \notin DOMAIN files /\ n \notin dirs /\ n \notin DOMAIN links /\ n # Closed
+                       /\ logsSt = "dir"
                        /\ (lk.file \/ lk.data = <<>>)
                        /\ links' = links @@ (n :> lk)
-                       /\ UNCHANGED <<now, conf, files, dirs, cur, lastDay, lastRot, retainAt, recent, phase, bleft,
-                                      acc, wrote, gone, fresh, supp, deleted, rd>>
+                       /\ UNCHANGED <<now, logsSt, self, parked, files, dirs, lgv, histv>>
+
+\* somebody else appends to a file of logs/ (also to a logger's current file): every writer appends,
+\* nothing that is there is touched
+ExternalAppend(n, data) == /\ phase # "gate" /\ n \in DOMAIN files /\ data # <<>>
+                           /\ files' = [files EXCEPT ![n] = @ \o data]
+                           /\ UNCHANGED <<now, logsSt, self, parked, dirs, links, lgv, histv>>
+
+\* somebody else removes a regular file; a logger that has it open keeps writing to the removed file
+ExternalRemove(n) == /\ phase # "gate" /\ n \in DOMAIN files
+                     /\ files' = Without(files, {n})
+                     /\ vanished' = vanished \cup GoneOf({n})
+                     /\ wrote' = Without(wrote, {n})
+                     /\ att' = (att /\ cur # n)
+                     /\ parked' = ParkedDetached({n})
+                     /\ faulted' = (faulted \/ HeldBy({n}) \/ WroteOf(n) # <<>>)
+                     /\ UNCHANGED <<now, logsSt, self, dirs, links, conf, cur, lastDay, lastRot, retainAt, recent, phase, bleft, fresh,
+                                    acc, gone, supp, deleted, rd>>
+
+\* somebody else cuts a file down to its first k bytes; the loggers append, so their next line follows byte k
+ExternalTruncate(n, k) == /\ phase # "gate" /\ n \in DOMAIN files /\ k \in 0..(Len(files[n]) - 1)
+                          /\ files' = [files EXCEPT ![n] = Low(@, k)]
+                          /\ vanished' = vanished \cup GoneOf({n})
+                          /\ wrote' = Without(wrote, {n})
+                          /\ faulted' = (faulted \/ WroteOf(n) # <<>>)
+                          /\ UNCHANGED <<now, logsSt, self, parked, dirs, links, lgv, acc, gone, supp, deleted, rd>>
+
+\* the whole logs directory is removed (or moved elsewhere): every logger is detached
+ExternalRemoveLogs == /\ phase # "gate" /\ logsSt = "dir"
+                      /\ logsSt' = "none"
+                      /\ files' = EmptyFn /\ dirs' = {} /\ links' = EmptyFn
+                      /\ vanished' = vanished \cup GoneOf(DOMAIN wrote)
+                      /\ wrote' = EmptyFn
+                      /\ att' = FALSE
+                      /\ parked' = [i \in DOMAIN parked |-> [parked[i] EXCEPT !.att = FALSE]]
+                      /\ faulted' = TRUE
+                      /\ UNCHANGED <<now, self, conf, cur, lastDay, lastRot, retainAt, recent, phase, bleft, fresh,
+                                     acc, gone, supp, deleted, rd>>
+\* a regular file is put where the logs directory was / is taken away again
+ExternalBlock == /\ phase # "gate" /\ logsSt = "none" /\ logsSt' = "file"
+                 /\ UNCHANGED <<now, self, parked, files, dirs, links, lgv, histv>>
+ExternalUnblock == /\ phase # "gate" /\ logsSt = "file" /\ logsSt' = "none"
+                   /\ UNCHANGED <<now, self, parked, files, dirs, links, lgv, histv>>
 
 (* ------------------------------ the logger ------------------------------ *)
 \* construction: defaults (rotation on, 7 days, 10 s), the given id / name / level;
-\* opens today's file and writes the banner
+\* makes logs/ if it is missing, opens today's file (appending if it exists) and writes the banner
 Open(id, oname, level, banner) ==
-  /\ phase = "new"
+  /\ phase = "new" /\ logsSt # "file" /\ logsSt' = "dir"
   /\ LET c == [level |-> level, iv |-> 10, keep |-> 7, rot |-> TRUE, id |-> id, oname |-> oname]
          n == NameOf(c, TRUE, now.d)
      IN  /\ IsBanner(banner, oname, now)
+         /\ n \notin dirs /\ n \notin DOMAIN links
          /\ conf' = c /\ cur' = n
          /\ files' = Append1(files, n, banner)
-  /\ lastDay' = now.d /\ lastRot' = TRUE /\ retainAt' = now /\ phase' = "run" /\ fresh' = TRUE
-  /\ UNCHANGED <<now, dirs, links, recent, bleft, acc, wrote, gone, supp, deleted, rd>>
+  /\ lastDay' = now.d /\ lastRot' = TRUE /\ retainAt' = now /\ phase' = "run" /\ fresh' = TRUE /\ att' = TRUE
+  /\ UNCHANGED <<now, self, parked, dirs, links, recent, bleft, histv>>
 
 \* settings change (level / interval / keep-days / rotation); takes effect at once,
 \* the output file follows at the next cycle
@@ -260,8 +357,7 @@ Configure(level, iv, keep, rot) ==
   /\ phase = "run"
   /\ conf' = [conf EXCEPT !.level = level, !.iv = iv, !.keep = keep, !.rot = rot]
   /\ fresh' = (fresh /\ rot = conf.rot)
-  /\ UNCHANGED <<now, files, dirs, links, cur, lastDay, lastRot, retainAt, recent, phase, bleft,
-                 acc, wrote, gone, supp, deleted, rd>>
+  /\ UNCHANGED <<now, logsSt, self, parked, att, files, dirs, links, cur, lastDay, lastRot, retainAt, recent, phase, bleft, histv>>
 
 \* a call below the configured level leaves no trace
 LogDrop(kind) == /\ phase \in {"run", "gate"} /\ ~ Gate(kind)
@@ -273,38 +369,47 @@ LogSuppress(kind, pid, s) ==
   /\ LET id == IdOf(kind, pid, s) IN
        /\ MaySuppress(kind, id)
        /\ supp' = [t |-> now, last |-> recent[id], iv |-> conf.iv]
-  /\ UNCHANGED <<now, conf, files, dirs, links, cur, lastDay, lastRot, retainAt, recent, phase, bleft,
-                 acc, wrote, gone, fresh, deleted, rd>>
+  /\ UNCHANGED <<now, logsSt, self, parked, files, dirs, links, lgv, acc, wrote, gone, vanished, faulted, deleted, rd>>
 
 \* otherwise the line is appended whole to the current file
 LogEmit(kind, pid, s, stamp, k) ==
-  /\ phase \in {"run", "gate"} /\ Gate(kind) /\ cur # Closed
+  /\ phase \in {"run", "gate"} /\ Gate(kind) /\ cur # Closed /\ att
   /\ StampOK(stamp) /\ k \in 1..2
   /\ files' = Append1(files, cur, stamp \o Payload(kind, pid, s, k))
   /\ recent' = IF Cached(kind) THEN Put(recent, IdOf(kind, pid, s), now) ELSE recent
   /\ acc' = acc + 1
   /\ wrote' = Put(wrote, cur, WroteOf(cur) \o <<acc + 1>>)
-  /\ UNCHANGED <<now, conf, dirs, links, cur, lastDay, lastRot, retainAt, phase, bleft, gone, fresh, supp, deleted, rd>>
+  /\ UNCHANGED <<now, logsSt, self, parked, att, conf, dirs, links, cur, lastDay, lastRot, retainAt, phase, bleft, fresh,
+                 gone, vanished, faulted, supp, deleted, rd>>
+
+\* a detached logger: the line goes where its file went
+LogVanish(kind, pid, s) ==
+  /\ phase \in {"run", "gate"} /\ Gate(kind) /\ ~ att
+  /\ recent' = IF Cached(kind) THEN Put(recent, IdOf(kind, pid, s), now) ELSE recent
+  /\ acc' = acc + 1
+  /\ vanished' = vanished \cup {acc + 1}
+  /\ UNCHANGED <<now, logsSt, self, parked, att, conf, files, dirs, links, cur, lastDay, lastRot, retainAt, phase, bleft, fresh,
+                 wrote, gone, faulted, supp, deleted, rd>>
 
 \* the as-is design only: output points at a closed file, the accepted line vanishes
 LogLose(kind, pid, s) ==
-  /\ Design = "asis" /\ phase = "gate" /\ Gate(kind) /\ cur = Closed
+  /\ Design = "asis" /\ phase = "gate" /\ Gate(kind) /\ cur = Closed /\ att
   /\ recent' = IF Cached(kind) THEN Put(recent, IdOf(kind, pid, s), now) ELSE recent
   /\ acc' = acc + 1
-  /\ UNCHANGED <<now, conf, files, dirs, links, cur, lastDay, lastRot, retainAt, phase, bleft, wrote, gone, fresh, supp, deleted, rd>>
+  /\ UNCHANGED <<now, logsSt, self, parked, att, conf, files, dirs, links, cur, lastDay, lastRot, retainAt, phase, bleft, fresh,
+                 wrote, gone, vanished, faulted, supp, deleted, rd>>
 
 (* retention: it runs when more than RetainEveryMs have passed since retainAt (it
    may run earlier -- the period is not part of the property); when it runs, and
    rotation is on and keep-days positive, it removes exactly MustDelete (and
-   possibly some of the undecided names `extra`) *)
+   possibly some of the undecided names `extra`).  It does not know about other
+   loggers: one that still has a removed file open is detached.                  *)
 RetainDue == TLt(AddMs(retainAt, RetainEveryMs), now)
-Without(f, D) == [n \in DOMAIN f \ D |-> f[n]]
-SeqRange(s) == {s[i] : i \in 1..Len(s)}
-GoneOf(D) == UNION {SeqRange(WroteOf(n)) : n \in D}
 RotationNeeded == lastRot # conf.rot \/ lastDay # now.d \/ cur = Closed
 
-\* first half of the periodic cycle.  mode "swap": open the new file and point the
-\* output at it (banner = the whole banner, or <<>>: three BannerLine steps follow);
+\* first half of the periodic cycle.  mode "swap": (make logs/ if it is missing,) open the new
+\* file and point the output at it (banner = the whole banner, or <<>>: three BannerLine steps
+\* follow); mode "down": a regular file stands where logs/ should be, nothing can be opened;
 \* mode "close": close the old file (output dangling until CycleB); "none": no
 \* rotation needed.  ran: retention ran in this cycle.
 CycleA(mode, banner, extra, ran) ==
@@ -314,22 +419,30 @@ CycleA(mode, banner, extra, ran) ==
   /\ LET D  == IF ran THEN {n \in DOMAIN files : MustDelete(n)} \cup extra ELSE {}
          f1 == Without(files, D)
          n  == NameOf(conf, conf.rot, now.d)
+         pk == \E i \in DOMAIN parked : parked[i].cur \in D /\ parked[i].phase # "new"
      IN  /\ deleted' = deleted \cup {[n |-> x, keep |-> conf.keep, must |-> MustDelete(x), may |-> MayDelete(x), on |-> RetainOn] : x \in D}
          /\ gone' = gone \cup GoneOf(D)
          /\ wrote' = Without(wrote, D)
+         /\ parked' = ParkedDetached(D)
          /\ retainAt' = IF ran \/ RetainDue THEN now ELSE retainAt
          /\ IF ~ RotationNeeded
             THEN /\ files' = f1 /\ banner = <<>> /\ mode = "none"
-                 /\ UNCHANGED <<cur, lastDay, lastRot, bleft>>
-            ELSE /\ lastDay' = now.d /\ lastRot' = conf.rot
-                 /\ \/ /\ mode = "swap" /\ IsBanner(banner, conf.oname, now)
-                       /\ files' = Append1(f1, n, banner) /\ cur' = n /\ bleft' = 0
-                    \/ /\ mode = "swap" /\ banner = <<>>
-                       /\ files' = Append1(f1, n, <<>>) /\ cur' = n /\ bleft' = 3
+                 /\ att' = (att /\ cur \notin D)
+                 /\ faulted' = (faulted \/ pk \/ (att /\ cur \in D))
+                 /\ UNCHANGED <<cur, lastDay, lastRot, bleft, logsSt>>
+            ELSE /\ lastDay' = now.d /\ lastRot' = conf.rot /\ faulted' = (faulted \/ pk)
+                 /\ \/ /\ mode = "swap" /\ IsBanner(banner, conf.oname, now) /\ logsSt # "file"
+                       /\ n \notin dirs /\ n \notin DOMAIN links
+                       /\ files' = Append1(f1, n, banner) /\ cur' = n /\ bleft' = 0 /\ att' = TRUE /\ logsSt' = "dir"
+                    \/ /\ mode = "swap" /\ banner = <<>> /\ logsSt # "file"
+                       /\ n \notin dirs /\ n \notin DOMAIN links
+                       /\ files' = Append1(f1, n, <<>>) /\ cur' = n /\ bleft' = 3 /\ att' = TRUE /\ logsSt' = "dir"
+                    \/ /\ mode = "down" /\ banner = <<>> /\ logsSt = "file" /\ Design = "repaired"
+                       /\ files' = f1 /\ cur' = Closed /\ bleft' = 0 /\ att' = FALSE /\ UNCHANGED logsSt
                     \/ /\ mode = "close" /\ banner = <<>>
-                       /\ files' = f1 /\ cur' = Closed /\ bleft' = 0
+                       /\ files' = f1 /\ cur' = Closed /\ bleft' = 0 /\ UNCHANGED <<att, logsSt>>
   /\ phase' = "gate"
-  /\ UNCHANGED <<now, conf, dirs, links, recent, acc, fresh, supp, rd>>
+  /\ UNCHANGED <<now, self, conf, dirs, links, recent, acc, fresh, vanished, supp, rd>>
 
 \* one banner line on its own
 BannerLine(b) ==
@@ -337,19 +450,18 @@ BannerLine(b) ==
   /\ IsBannerLine(4 - bleft, b, conf.oname, now)
   /\ files' = Append1(files, cur, b)
   /\ bleft' = bleft - 1
-  /\ UNCHANGED <<now, conf, dirs, links, cur, lastDay, lastRot, retainAt, recent, phase,
-                 acc, wrote, gone, fresh, supp, deleted, rd>>
+  /\ UNCHANGED <<now, logsSt, self, parked, att, conf, dirs, links, cur, lastDay, lastRot, retainAt, recent, phase, fresh, histv>>
 
-\* second half: (re)open if the output is dangling
+\* second half: (re)open if the output is dangling -- which fails again while logs/ cannot be made
 CycleB(banner) ==
   /\ phase = "gate" /\ bleft = 0
-  /\ IF cur = Closed
+  /\ IF cur = Closed /\ logsSt # "file"
      THEN LET n == NameOf(conf, conf.rot, now.d) IN
             /\ IsBanner(banner, conf.oname, now)
-            /\ files' = Append1(files, n, banner) /\ cur' = n
-     ELSE banner = <<>> /\ UNCHANGED <<files, cur>>
-  /\ phase' = "run" /\ fresh' = TRUE
-  /\ UNCHANGED <<now, conf, dirs, links, lastDay, lastRot, retainAt, recent, bleft, acc, wrote, gone, supp, deleted, rd>>
+            /\ files' = Append1(files, n, banner) /\ cur' = n /\ att' = TRUE /\ logsSt' = "dir" /\ fresh' = TRUE
+     ELSE /\ banner = <<>> /\ fresh' = (cur # Closed) /\ UNCHANGED <<files, cur, att, logsSt>>
+  /\ phase' = "run"
+  /\ UNCHANGED <<now, self, parked, conf, dirs, links, lastDay, lastRot, retainAt, recent, bleft, histv>>
 
 (* ----------------------------------- Read -------------------------------- *)
 (* Where a caller-supplied name joined below <home>/logs leads.  Lexically, as a
@@ -425,9 +537,12 @@ ReadAnswer(file, end, len, beyond) ==
    whether there is an answer at all for a plain name that is no symbolic link; that
    any other name is answered only from the file it leads to (or not at all), and a
    name that lexically leaves logs/ never.  Where the window lies is judged by
-   ReadHonest alone.  Read may log one error line about its own failure (diag). *)
-Read(file, end, len, res, diagStamp, diag, beyond) ==
+   ReadHonest alone.  Read may log one error line about its own failure (diag), and it
+   may make the logs directory if that is missing (ls = what stands there afterwards). *)
+Read(file, end, len, res, diagStamp, diag, beyond, ls) ==
   /\ phase = "run"
+  /\ ls \in {logsSt} \cup (IF logsSt = "none" THEN {"dir"} ELSE {})
+  /\ logsSt' = ls
   /\ LET a == ReadAnswer(file, end, len, beyond) IN
        /\ (Plain(file) /\ ~ a.und => res.nil = a.nil)
        /\ (~ res.nil => ~ a.nil)
@@ -435,20 +550,22 @@ Read(file, end, len, res, diagStamp, diag, beyond) ==
                 ELSE [nil |-> FALSE, inside |-> a.inside, len |-> len, before |-> res.before,
                       text |-> res.text, content |-> a.content]
        /\ IF diag = <<>> THEN UNCHANGED <<files, recent, acc, wrote>>
-          ELSE /\ res.nil /\ cur # Closed /\ StampOK(diagStamp)
+          ELSE /\ res.nil /\ cur # Closed /\ att /\ StampOK(diagStamp)
                /\ files' = Append1(files, cur, diagStamp \o Payload("E", <<>>, diag, 1))
                /\ recent' = Put(recent, IdOf("E", <<>>, diag), now)
                /\ acc' = acc + 1
                /\ wrote' = Put(wrote, cur, WroteOf(cur) \o <<acc + 1>>)
-  /\ UNCHANGED <<now, conf, dirs, links, cur, lastDay, lastRot, retainAt, phase, bleft, gone, fresh, supp, deleted>>
+  /\ UNCHANGED <<now, self, parked, att, conf, dirs, links, cur, lastDay, lastRot, retainAt, phase, bleft, gone, fresh,
+                 vanished, faulted, supp, deleted>>
 
 (* ------------------------------- properties ------------------------------ *)
-\* every accepted line is in exactly one place, and each file holds its lines in call order
+\* every accepted line is in exactly one place (a file, a file retention removed, a file somebody else
+\* took away), and each file holds its lines in call order
 AllWrote == UNION {SeqRange(wrote[n]) : n \in DOMAIN wrote}
 RECURSIVE SumLen(_, _)
 SumLen(f, D) == IF D = {} THEN 0 ELSE LET n == CHOOSE x \in D : TRUE IN Len(f[n]) + SumLen(f, D \ {n})
-NoLineLost == /\ AllWrote \cup gone = 1..acc
-              /\ AllWrote \cap gone = {}
+NoLineLost == /\ AllWrote \cup gone \cup vanished = 1..acc
+              /\ AllWrote \cap gone = {} /\ AllWrote \cap vanished = {} /\ gone \cap vanished = {}
               /\ SumLen(wrote, DOMAIN wrote) = Cardinality(AllWrote)
 InOrder == \A n \in DOMAIN wrote : \A i \in 1..(Len(wrote[n]) - 1) : wrote[n][i] < wrote[n][i + 1]
 LinesWholeInOrder == NoLineLost /\ InOrder /\ DOMAIN wrote \subseteq DOMAIN files
@@ -456,7 +573,11 @@ LinesWholeInOrder == NoLineLost /\ InOrder /\ DOMAIN wrote \subseteq DOMAIN file
 \* the output file is the one named from id, name and the date it was chosen for
 FileNameRight == phase # "new" => /\ cur \in {Closed, NameOf(conf, lastRot, lastDay)}
                                   /\ lastDay <= now.d
-                                  /\ (phase = "run" => cur # Closed /\ cur \in DOMAIN files)
+                                  /\ (phase = "run" /\ cur = Closed => ~ att /\ ~ fresh /\ faulted)
+                                  /\ (phase = "run" /\ att => cur # Closed /\ cur \in DOMAIN files)
+
+\* as long as nobody took a file away from under a logger, no line vanishes and the logger stays on its file
+NoFaultNoLoss == ~ faulted => vanished = {} /\ (phase = "run" => att)
 
 \* once the date (or the rotation flag) has changed and a cycle has run, output goes to the new file
 RotatesAfterCycle == (phase = "run" /\ fresh) => cur = NameOf(conf, conf.rot, now.d)
@@ -472,5 +593,5 @@ ReadHonest == /\ ~ rd.inside => rd.nil
                              /\ rd.text = Slice(rd.content, rd.before + 1, Len(rd.text))
 
 InvAll == LinesWholeInOrder /\ FileNameRight /\ RotatesAfterCycle /\ SuppressedOnlyWithin
-          /\ RetentionExact /\ ReadHonest
+          /\ RetentionExact /\ ReadHonest /\ NoFaultNoLoss
 =============================================================================
